@@ -44,3 +44,9 @@ pub fn leaked_order(m: &HashMap<String, u32>) -> Vec<String> {
 pub fn ambient_inputs() -> (std::time::Instant, Option<String>, u32) {
     (std::time::Instant::now(), std::env::var("HOME").ok(), std::process::id())
 }
+
+// E5.key: identity decided by rendered text
+pub fn dedup_by_text(items: &[u32]) -> Vec<u32> {
+    let mut seen = std::collections::HashSet::<String>::new();
+    items.iter().copied().filter(|i| seen.insert(format!("{}", i % 7))).collect()
+}
